@@ -47,6 +47,7 @@ class Contract:
     line: int = 0
     is_lemma: bool = False
     quick_restricted: bool = False
+    loop_invariants: dict = field(default_factory=dict)   # while-loop ordinal -> {"shapes": {...}, "inv": "..."}
     deductive: bool = True        # False: the contract is only checked natively (bounded), its body is not executed symbolically
 
 
@@ -135,6 +136,8 @@ class Registry:
                         c.abstract_for = list(val)
                     elif n == "deductive":
                         c.deductive = bool(val)
+                    elif n == "loop_invariants":
+                        c.loop_invariants = dict(val)
                 elif isinstance(b, ast.FunctionDef):
                     cprops = props
                     known = []
@@ -548,7 +551,7 @@ def apply_contract_at_call(ctx, fr, path, f: FuncRef, contract: Contract, env, n
     result = None
     pending = []
     for cl in contract.ensures:
-        if cl.mode == "prove":
+        if cl.mode in ("prove", "bounded"):     # bounded clauses are never proved, hence never assumed
             continue
         eqn = _single_return_eq(cl.node)
         if eqn is not None and isinstance(eqn[0], ast.Name) and eqn[0].id == "result" and result is None:
